@@ -88,6 +88,24 @@ ThmRootInvariant == Complete => LET t == T0  m == M0  hs == MovedTrees(t)  deep 
         mc == IF deep THEN MinCost(t, col, S) ELSE 0 IN
     \A h \in hs : FitchScore(h, col) = f /\ (deep => MinCost(h, col, S) = mc)
 
+\* the conjunction of the five statements above with the brute-force minima shared between them (each
+\* MinCost is evaluated once per input instead of once per statement).  This is what the registered
+\* configurations check; MC_Fitch_diag.cfg checks the statements one by one (to name the failing one).
+ThmTable == Complete => LET t == T0  m == M0  hs == MovedTrees(t)  deep == TL <= RootMinLeaves IN
+    \A gm \in BOOLEAN :
+      LET mc == MinByChar(t, m, gm)
+          fc == FitchByChar(t, m, gm)
+          S == Universe(m, gm)
+          c == PassCounts(t, LeafSetsUsed(t, NoCache(t), m, gm, Shipped), nc) IN
+      /\ fc = mc                                                                      \* ThmFitchIsMin
+      /\ MinByCharUsed(t, m, gm) = mc                                                 \* ThmUsedStates
+      /\ (TL <= FullLeaves => \A j \in 1..nc : MinCostFull(t, Col(m, j, gm), S) = mc[j])   \* ThmLeafChoice
+      /\ \A w \in WeightVecs(nc) :                                                    \* ThmScoreOp
+           LET r == Scored(c, nc, w) IN
+           r.bychar = Weighted(mc, w) /\ r.score = SumSeq(Weighted(mc, w)) /\ SumSeq(r.bychar) = r.score /\ ~r.over
+      /\ \A j \in 1..nc : \A h \in hs :                                               \* ThmRootInvariant
+           FitchScore(h, Col(m, j, gm)) = fc[j] /\ (deep => MinCost(h, Col(m, j, gm), S) = mc[j])
+
 \* ------------------------------------------------------------------ SpecS
 SMMatrices == UNION {[1..L -> [1..1 -> SMCells1]] : L \in 2..SMLeaves} \cup UNION {[1..L -> [1..2 -> SMCells2]] : L \in 2..SMLeaves2}
 SMWeightVecs == {<<>>} \cup UNION {[1..k -> SMWeights] : k \in 1..2}
